@@ -47,6 +47,16 @@ func main() {
 		}
 	}
 	c.Deadline = c.Start.Add(budget)
+	if s := os.Getenv("VERIF_HANG_S"); s != "" {
+		if n, err := strconv.Atoi(s); err == nil {
+			hangLimit = time.Duration(n) * time.Second
+		}
+	}
+	if s := os.Getenv("VERIF_MEM_GIB"); s != "" {
+		if n, err := strconv.Atoi(s); err == nil {
+			memLimit = uint64(n) << 30
+		}
+	}
 	c.kf = loadKnownFindings(filepath.Join(home(), "KNOWN_FINDINGS.txt"))
 	for i := 3; i < len(os.Args); i++ {
 		if os.Args[i] == "--replay" && i+1 < len(os.Args) {
@@ -108,7 +118,29 @@ func workerMain(args []string) int {
 }
 
 func init() {
-	checks["SELFTEST"] = func(c *Ctx) {}
+	checks["SELFTEST"] = func(c *Ctx) {
+		switch os.Getenv("VERIF_SELFTEST") {
+		case "hang":
+			c.Section("SELFTEST/hang", nil, 4, func(i int, w *Worker) {
+				if i == 2 {
+					select {}
+				}
+			})
+		case "mem":
+			c.Section("SELFTEST/mem", nil, 4, func(i int, w *Worker) {
+				if i == 1 {
+					var keep [][]byte
+					for {
+						keep = append(keep, make([]byte, 64<<20))
+						for j := range keep[len(keep)-1] {
+							keep[len(keep)-1][j] = 1
+						}
+						time.Sleep(50 * time.Millisecond)
+					}
+				}
+			})
+		}
+	}
 }
 
 var replayAliases = map[string]string{
